@@ -272,6 +272,18 @@ class Gen:
         for _ in range(r.randint(1, self.p.get("calls", 2))):
             inline = self.stmts(fs, 1, 1, 2) if r.random() < self.p.get("inline", 0.3) else None
             calls.append({"inline": inline, "seed": r.randrange(1 << 30)})
+        nonrand = [i for i, f in enumerate(fs) if not f["rand"]]
+        for c in calls[1:]:
+            if nonrand and r.random() < self.p.get("reassign", 0.5):
+                sets = []
+                for i in r.sample(nonrand, r.randint(1, len(nonrand))):
+                    f = fs[i]
+                    if f.get("enums"):
+                        sets.append([i, r.choice(f["enums"])])
+                    else:
+                        lo, hi = (-(1 << (f["w"] - 1)), (1 << (f["w"] - 1)) - 1) if f["s"] else (0, (1 << f["w"]) - 1)
+                        sets.append([i, min(max(r.choice([lo, hi, 0, 1, r.randint(lo, hi), r.randint(lo, hi)]), lo), hi)])
+                c["set"] = sets
         scn = {"fields": fs, "blocks": blocks, "calls": calls}
         if self.p.get("rangelists"):
             # range lists held by the object, referred to by the constraints and edited between the calls
@@ -357,6 +369,11 @@ def scenario_requests(S, scn):
             elif op["op"] == "extend":
                 rlo.extend([S.rl_item(x) for x in op["items"]])
                 cur.extend(op["items"])
+        # the user assigns new values to non-random fields between the calls: every formula, inferred range and dist
+        # weight of this call has to be built from the values the fields hold now
+        for i, v in call.get("set", []):
+            f = scn["fields"][i]
+            setattr(o, f["name"], S.enum_type(f["enums"])(v) if f.get("enums") else v)
         others = [(x, S.get_values(x, scn)) for x in insts if x is not o]
         before = S.get_values(o, scn)
         o.set_randstate(RandState.mkFromSeed(call["seed"]))
